@@ -583,7 +583,7 @@ theorem staticLimit_sound (key : List Prim → Option Nat) (maxv : Nat)
   · rename_i new tp1 _
     intro o ho
     rcases (staticLimitLoop_spec new tp1 outs tp' h).2 o ho with h' | ⟨_, h'⟩
-    · exact hin o h'
+    · exact hin o (List.mem_of_mem_take h')
     · exact h'
 
 example : (∀ a ∈ [[pAdd, pOne, pOne]], ∃ k, (fun l : List Prim => some l.length) a = some k ∧ k ≤ 3) ∧
@@ -612,7 +612,7 @@ theorem staticLimit_closed (Q : List Prim → Prop) (key : List Prim → Option 
     refine ⟨?_, ?_⟩
     · intro o ho
       rcases hm o ho with h' | ⟨h', _⟩
-      · exact hin o h'
+      · exact hin o (List.mem_of_mem_take h')
       · exact hop new tp1 hop1 o h'
     · intro new' tp1' e; rw [hop1] at e; simp at e; rw [← e.1]; exact hl
 
